@@ -278,6 +278,24 @@ def linsolve_overrides(r, tier, seed):
                             run_linsolve_case(r, f'LinSolve({kw_src})', (kind, n, kw_src, cname, bname, lda), M, b, kw_src, lda, tol)
 
 
+@bound('LinSolve with CG overrides (plain, DampedJacobi, ILU; LDAS on/off) on a banded SPD matrix of n = 30 [quick] / 30, 80 [thorough] (ndarray, csc) whose block rhs mixes an '
+       'eigenvector (converges in one iteration), a generic column and a smooth column: every column must reach the tolerance')
+@lazy
+def linsolve_cg_block(r, tier, seed):
+    for n in sizes(tier, (30,), (30, 80)):
+        rng = np.random.default_rng(seed + n)
+        A = gen_matrix('band', n, rng)
+        w, V = np.linalg.eigh(A)
+        B = np.stack([V[:, 0], rng.uniform(-1, 1, n), np.linspace(0, 1, n)], axis=1)
+        for cname in ('dense', 'csc'):
+            for kw_src in ("solver=CG(tol=1e-12)", "solver=CG(preconditioner=DampedJacobi(w=0.8), tol=1e-12)", "solver=CG(preconditioner=ILU(), tol=1e-12)"):
+                if 'ILU' in kw_src and cname == 'dense':
+                    continue
+                for lda in (True, False):
+                    for bname, b in (('eigvec+generic block', B), ('generic+eigvec block', B[:, ::-1].copy()), ('vector', B[:, 1].copy())):
+                        run_linsolve_case(r, f'LinSolve({kw_src})', (n, cname, kw_src, lda, bname), CONTAINERS[cname](A), b, kw_src, lda, 1e-8)
+
+
 @bound('the documented TypeError: raised for every real sparse container x complex rhs (vector, block), n in {1,3,6}; and NOT raised for real dense x '
        'complex rhs, complex sparse x complex rhs, real sparse x real rhs (those cases are solved and verified)')
 @lazy
@@ -890,7 +908,7 @@ def static_condensation_cg(r, tier, seed):
 
 
 CHECKS = [('linsolve_classes', linsolve_classes), ('linsolve_decoupled', linsolve_decoupled), ('linsolve_overrides', linsolve_overrides),
-          ('linsolve_typeerror', linsolve_typeerror), ('linsolve_histories', linsolve_histories),
+          ('linsolve_cg_block', linsolve_cg_block), ('linsolve_typeerror', linsolve_typeerror), ('linsolve_histories', linsolve_histories),
           ('linsolve_rhs_width_history', linsolve_rhs_width_history), ('linsolve_class_change_history', linsolve_class_change_history),
           ('inverse', inverse),
           ('soe_partitions', soe_partitions), ('soe_histories', soe_histories), ('soe_nonsymmetric', soe_nonsymmetric), ('soe_second_call', soe_second_call),
